@@ -376,3 +376,34 @@ def run_default_keywords(seed):
 def ensure_dir():
     os.makedirs(paths.SCRATCH, exist_ok=True)
     return paths.SCRATCH
+
+
+def run_byvalue_arrays(seed=0):
+    """a field hashed by value whose values are numpy arrays: arrays that differ (in dtype, shape or content) are different values, so the
+    node hashes of the fields derived from them differ - also when their raw bytes coincide (bool / uint8 masks, zeros of two dtypes, empty
+    arrays of two dtypes)"""
+    import hashlib
+    import numpy as np
+    paths.use_repo()
+    import connectome as c
+    from tarn.pickler import dumps
+    arrays = {'bool': np.array([True, False, True]), 'uint8': np.array([1, 0, 1], dtype='uint8'), 'int8': np.array([1, 0, 1], dtype='int8'),
+              'zeros-int64': np.zeros(2, dtype='int64'), 'zeros-float64': np.zeros(2, dtype='float64'), 'empty-float': np.zeros(0, dtype='float32'),
+              'empty-int': np.zeros(0, dtype='int32'), 'row': np.zeros((1, 2), dtype='uint8'), 'col': np.zeros((2, 1), dtype='uint8')}
+    problems = []
+    try:
+        from connectome.interface.complex_edges import hash_by_value
+        pipe = c.Transform(mask=hash_by_value(lambda id: arrays[id]), id=lambda id: id) >> \
+            c.Transform(__inherit__=True, kind=lambda mask: (str(mask.dtype), mask.shape, mask.tolist()))
+        f = pipe._compile('kind')
+        seen = {}
+        for name in arrays:
+            dg = hashlib.sha256(dumps(f.get_hash(name)[0].value)).hexdigest()[:16]
+            v = f(name)
+            if dg in seen and seen[dg][1] != v:
+                problems.append({'msg': f'a field derived from a by-value array: the entries {seen[dg][0]!r} and {name!r} (values {seen[dg][1]!r} vs {v!r}) have the same node hash'})
+                break
+            seen[dg] = (name, v)
+    except Exception as e:
+        problems.append({'msg': 'by-value arrays scenario raised ' + type(e).__name__ + ': ' + str(e)[:150]})
+    return problems
